@@ -16,7 +16,7 @@ func init() {
 		ID:    "C45",
 		Title: "Protocol data encodes deterministically and round-trips",
 		Pkgs: []string{"consensus", "core/dblookupext", "data/batch", "data/block", "data/metrics", "data/receipt", "data/rewardTx", "data/smartContractResult",
-			"data/state", "data/transaction", "data/trie", "dataRetriever", "heartbeat/data", "p2p/data", "process/block/bootstrapStorage", "vm/systemSmartContracts", "marshal"},
+			"data/state", "data/transaction", "data/trie", "dataRetriever", "heartbeat/data", "p2p/data", "process/block/bootstrapStorage", "vm/systemSmartContracts", "marshal", "data"},
 		Explain: "Decides the determinism half ('encodes to the same bytes each time') completely at the level of code shape: every generated protocol type (a type with gogo-proto Marshal/MarshalToSizedBuffer/Size " +
 			"methods in a *.pb.go file) has no map-typed field and no unknown-field store (XXX_unrecognized), and none of its encoding methods contains a range over a map, a goroutine, a select, or a time/rand call - " +
 			"so the emitted bytes are a fixed function of the field values, written in field-number order. GogoProtoMarshalizer.Marshal delegates to exactly that method. " +
@@ -93,6 +93,33 @@ func runC45(c *core.Ctx) {
 	c.Note("%d generated types, %d encoder methods scanned", len(tlist), nFn)
 	c.Pass("C45/encoder-order-independent", "all-encoders", 0, fmt.Sprintf("%d Marshal/MarshalTo/MarshalToSizedBuffer/Size methods contain no map range, goroutine, select, time or rand", nFn))
 	c.Floor("C45/type-has-fixed-field-order", 60)
+	// decoding starts from a clean object: the generated Unmarshal MERGES into its receiver (repeated fields are appended,
+	// absent fields keep their old value), so GogoProtoMarshalizer.Unmarshal must Reset() the destination first
+	if fn := anchorM(c, "marshal", "GogoProtoMarshalizer", "Unmarshal"); fn != nil {
+		q := core.PathQ{Fn: fn, Via: func(in ssa.Instruction) bool {
+			cc := core.CallOf(in)
+			return cc != nil && isInvoke(cc, "Reset")
+		}, Target: func(in ssa.Instruction, _ *ssa.BasicBlock) bool {
+			cc := core.CallOf(in)
+			return cc != nil && isInvoke(cc, "Unmarshal")
+		}}
+		esc, _ := q.Escape()
+		c.Check(esc == nil, "C45/marshalizer-delegates", "GogoProtoMarshalizer.Unmarshal/reset-first", fn.Pos(), "the destination is Reset() before the generated Unmarshal merges into it",
+			"the generated Unmarshal is reached without a preceding Reset(): decoding into a reused object appends to repeated fields and keeps stale values")
+	}
+	// every decoded big integer is a fresh object: a shared *big.Int would alias the zero-valued fields of all decoded records
+	if fn := optM(c, "data", "BigIntCaster", "Unmarshal"); fn != nil {
+		bad := ""
+		for _, r := range core.Returns(fn) {
+			for v := range core.BackwardReachPure(core.RetOperand(r, 0)) {
+				if g, ok := v.(*ssa.Global); ok {
+					bad = g.Name()
+				}
+			}
+		}
+		c.Check(bad == "", "C45/decoded-values-fresh", "BigIntCaster.Unmarshal", fn.Pos(), "returns a big.Int allocated by the call",
+			"BigIntCaster.Unmarshal returns the package-level value "+bad+": all decoded zero-valued fields share one pointer and an in-place update of one record changes the others")
+	}
 	// the marshalizer delegates to the generated method
 	if fn := anchorM(c, "marshal", "GogoProtoMarshalizer", "Marshal"); fn != nil {
 		ok := false
